@@ -64,7 +64,10 @@ def print_sdl(S):
         if k == "scalar":
             if t["name"] not in BUILTIN_SCALARS: out.append(f"scalar {t['name']}")
         elif k == "enum":
-            out.append(f"enum {t['name']} {{ " + " ".join(t["values"]) + " }")
+            # some values are deprecated (deterministic in the names): a deprecated value is still a value - as a literal, in a
+            # variable, as a result
+            import zlib as _z
+            out.append(f"enum {t['name']} {{ " + " ".join(v + (' @deprecated(reason: "old")' if _z.crc32((t["name"] + v).encode()) % 3 == 0 and not S.get("no_extend") else "") for v in t["values"]) + " }")
         elif k in ("object", "interface"):
             # the same type is sometimes spelled with `extend` (deterministic in the type's content): some of its interfaces and /
             # or its last field arrive through an extension - execution may not tell the difference
@@ -293,7 +296,7 @@ class SchemaGen:
     def bad_leaf(self):
         r = self.r
         return r.choice([float("nan"), float("inf"), 2**31, -2**31 - 1, 1.5, "abc", "12", "", True, [], [1], {}, {"a": 1}, (1, 2), 10**400,
-                         "BAD", "A", "Z", 0, -0.0, 2.0, "1e400", {"x": False, "m": "as value", "e": []}, {"o": "Weird", "a": []}, {"o": "BaseSignal", "a": []}, None,
+                         "BAD", "A", "Z", 0, -0.0, 2.0, "1e400", {"x": False, "m": "as value", "e": []}, {"o": "Weird", "a": []}, {"o": "BaseSignal", "a": []}, {"o": "BytesLike", "a": []}, None,
                          {"x": False, "m": "", "e": [], "multi": 1}])
 
     def targeted_bad(self, ty):
@@ -307,9 +310,9 @@ class SchemaGen:
         b = t["n"]
         if b == "Int": return r.choice(["2147483648", "-2147483649", "1e10", 2**31, -2**31 - 1, 1.5, "1.5", "12", 12.0, float("nan"), True, "", " 7 ", 10**400, "0x10"])
         if b == "Float": return r.choice(["1e999", "-1e999", "nan", "inf", "-Infinity", float("inf"), float("nan"), 10**400, "1.5", "abc", True, [], "1e-999"])
-        if b == "String": return r.choice([12, 1.5, True, [], {"a": 1}, (1,), None, {"o": "Obj", "a": []}, float("nan")])
+        if b == "String": return r.choice([12, 1.5, True, [], {"a": 1}, (1,), None, {"o": "Obj", "a": []}, float("nan"), {"o": "BytesLike", "a": []}, {"o": "BytesLike", "a": []}])
         if b == "Boolean": return r.choice(["true", "false", "", 0, 1, 2, 1.5, float("nan"), float("inf"), [], "yes", 10**400])
-        if b == "ID": return r.choice([1.5, True, False, 7.0, float("inf"), [], {"a": 1}, 10**30, -0.0])
+        if b == "ID": return r.choice([1.5, True, False, 7.0, float("inf"), [], {"a": 1}, 10**30, -0.0, {"o": "BytesLike", "a": []}])
         td = self.tdef(b)
         if td and td["kind"] == "enum": return r.choice(["a", "Z", td["values"][0].lower(), 0, True, [td["values"][0]], "", td["values"][0] + " ",
                                                          # objects that merely CARRY a declared value (a record / Python Enum member with .name, .value)
@@ -425,6 +428,7 @@ class SchemaGen:
                                            {"k": "raise", "v": {"x": False, "m": "", "e": [], "noargs": 1, "cls": r.choice(["ValueError", "TimeoutError", "AssertionError"])}},
                                            {"k": "raise", "v": {"x": False, "m": "42", "e": [], "cls": "KeyErrorInt"}},
                                            {"k": "raise", "v": {"x": True, "m": "tart boom", "e": [["code", {"i": "42"}]]}},
+                                           {"k": "raise", "v": {"x": True, "m": "tart boom for the user", "e": [], "um": 1}},
                                            {"k": "const", "v": {"x": False, "m": "returned exc", "e": []}}, {"k": "const", "v": None}])
                 else:
                     res[coord] = {"k": "const", "v": self.value_for(f["type"], 0, adv)}
